@@ -147,5 +147,6 @@ Definition ob (defer : bool) (idx : option N) (ret : option bool) (panic : bool)
   (frames : list oframe) (hooks execs : list N) : obs :=
   {| ob_defer := defer; ob_index := idx; ob_ret := ret; ob_panic := panic; ob_frames := frames;
      ob_hooks := hooks; ob_execs := execs |}.
-Definition mkcfg (a b c d : bool) : cfg :=
-  {| keep_box_on_remove := a; zero_index_untested := b; nil_slot_on_failed_activate := c; remove_pending_slot := d |}.
+Definition mkcfg (a b c d e : bool) : cfg :=
+  {| keep_box_on_remove := a; zero_index_untested := b; nil_slot_on_failed_activate := c; remove_pending_slot := d;
+     terminate_by_index := e |}.
